@@ -430,6 +430,11 @@ func loadChunk(l *Lexer, recordLen uint64) error {
 
 		_, err := io.ReadFull(l.reader, l.uncompressedChunk[:uncompressedSize])
 		if err != nil {
+			if errors.Is(err, io.EOF) {
+				// the chunk's data ended before any of the declared bytes were produced. This
+				// must not look like the end of the file to callers that test for io.EOF.
+				err = io.ErrUnexpectedEOF
+			}
 			return fmt.Errorf("failed to decompress chunk: %w", err)
 		}
 
